@@ -127,22 +127,28 @@ func (o Opts) writerVia(mode string, out *bytes.Buffer, event []byte) zerolog.Co
 	case "new-reconfigured":
 		d := o.decoy(event)
 		w := zerolog.NewConsoleWriter(func(w *zerolog.ConsoleWriter) { d.assign(w, &scratch, false); w.NoColor = false })
-		w.Write(event)
+		constructWrite(w, event)
 		o.assign(&w, out, true)
 		return w
 	case "literal-reconfigured":
 		d := o.decoy(event)
 		w := d.writer(&scratch)
 		w.NoColor = false
-		w.Write(event)
+		constructWrite(w, event)
 		o.assign(&w, out, true)
 		return w
 	case "copied-after-use":
 		w0 := o.writer(&scratch)
-		w0.Write(event)
+		constructWrite(w0, event)
 		w := w0
 		w.Out = out
 		return w
 	}
 	return o.writer(out)
+}
+
+func constructWrite(w zerolog.ConsoleWriter, event []byte) {
+	if _, _, pan := safeWrite(w, event); pan != "" && constructPanic == "" {
+		constructPanic = pan
+	}
 }
